@@ -48,6 +48,10 @@ impl Env {
             (vec![(0, 0x1000), (top - 0x2000, 0x2000)], "zero+below-top"),
             (vec![(0x10, 1), (0x11, 1), (0x13, 1)], "one-byte-regions"),
             (vec![(0, 0x1000), (0x1000, 0x1001), (0x4000, 0x10)], "adjacent+hole"),
+            // many regions (lookup strategies may change with the region count), lowest region
+            // above 0, holes of 0 / 1 / many bytes, highest region ending at the top
+            ((0..17u64).map(|i| (0x8000 + i * 0x30, if i % 3 == 0 { 0x30 } else { 0x2f })).collect(), "17-regions-above-zero"),
+            ((0..64u64).map(|i| (0x100 + i * 0x1_0000_0000, 0x40)).chain([(top - 0x40, 0x40)]).collect(), "65-regions-sparse-to-top"),
         ];
         let mut gms = vec![];
         for (sp, name) in specs {
